@@ -1330,7 +1330,27 @@ def cases_for(prop, tier, seed):
         f18 = case({"config": {"register_address_type": "u8", "default_byte_order": "LE"}, "objects": [
             {"kind": "register", "name": "Wide", "address": "1", "size_bits": 160,
              "fields": [{"name": "v", "base": "uint", "start": 0, "end": 160}]}]}, "dsl", "nocfg")
-        return CORPUS.get(prop, []) + [f14, f18] + [case(nocfg_adef(g), pick_syntax(g, (3, 3, 2, 2)), "nocfg") for _ in range(90 * k)]
+        f19 = case({"config": {"register_address_type": "u8", "default_byte_order": "LE"}, "objects": [
+            {"kind": "register", "name": "Type", "address": "1", "size_bits": 8,
+             "fields": [{"name": "type", "base": "uint", "start": 0, "end": 4}, {"name": "match", "base": "bool", "start": 5}]}]}, "json", "nocfg")
+        edge = [case({"config": {"register_address_type": "u8", "command_address_type": "u8", "buffer_address_type": "u8", "default_byte_order": "LE"}, "objects": objs}, syn, "nocfg")
+                for syn, objs in (
+                    ("json", [{"kind": "register", "name": "Empty", "address": "1", "size_bits": 0, "fields": []},
+                              {"kind": "register", "name": "Full", "address": "2", "size_bits": 8, "fields": []}]),
+                    ("dsl", [{"kind": "register", "name": "Never", "address": "1", "size_bits": 8, "repeat": {"count": "0", "stride": "1"}, "fields": []},
+                             {"kind": "block", "name": "Nothing", "address_offset": "8", "repeat": {"count": "0", "stride": "4"}, "objects": [
+                                 {"kind": "command", "name": "Go", "address": "0"}]}]),
+                    ("yaml", [{"kind": "block", "name": "Hollow", "objects": []}, {"kind": "buffer", "name": "Fifo", "address": "3"}]))]
+        f21 = [case({"config": {"register_address_type": "u8", "default_byte_order": "LE", **kw}, "objects": objs}, "json", "nocfg")
+               for kw, objs in (
+                   ({"name_word_boundaries": ["Underscore"]}, [{"kind": "register", "name": "x_y", "address": "1", "size_bits": 8, "fields": []},
+                                                               {"kind": "register", "name": "XY", "address": "2", "size_bits": 8, "fields": []}]),
+                   ({}, [{"kind": "register", "name": "R", "address": "1", "size_bits": 8, "fields": [
+                       {"name": "x", "base": "uint", "start": 0, "end": 2}, {"name": "set_x", "base": "uint", "start": 2, "end": 4}]}]),
+                   ({}, [{"kind": "block", "name": "Blk", "objects": [{"kind": "register", "name": "R", "address": "1", "size_bits": 8, "fields": [
+                       {"name": "f", "base": "uint", "start": 0, "end": 2, "conversion": {"enum": {"name": "Blk", "variants": [
+                           {"name": "A", "value": None}, {"name": "B", "value": "default"}]}, "try": False}}]}]}]))]
+        return CORPUS.get(prop, []) + [f14, f18, f19] + f21 + edge + [case(nocfg_adef(g), pick_syntax(g, (3, 3, 2, 2)), "nocfg") for _ in range(90 * k)]
     return _cases_for_base5(prop, tier, seed)
 
 
